@@ -58,6 +58,19 @@ CHECKS = {
             "initial assignment of the cached flag to up to five chosen cells; all query outcomes must equal the all-cached run. "
             "Uncached cells must hold no values, run on every call, accept unhashable arguments and reject assignment.",
             "None-returning formulas and assignments to flag-carrying cells are outside the generated domain; per-case enumeration of assignments is exhaustive, cases are sampled"),
+    "C16": ("exploration",
+            "property-based testing (Hypothesis) of generate_actions/execute_actions over generated DAGs x target lists x all step sizes, against the reference closure/call order and the execution log",
+            "For generated DAG models, target lists (dependent targets in either order, input targets) and every step size from 1 to "
+            "beyond the number of elements: generating actions must leave no calculated value, calc steps must cover the reference "
+            "dependency closure exactly once in call order, and executing them must leave exactly the targets with the directly "
+            "evaluated values while every cached element executes once.",
+            "closure and order from vf/ref.py; ItemSpace instances are containers, not counted as calculated values"),
+    "C17": ("fault_enumeration",
+            "fault injection over line-laid-out DAG models (Hypothesis): every reachable element fails in turn, with earlier handled/unhandled failures; get_traceback()/get_error()/trace_locals() compared with the chain unwound by the reference interpreter and generated line numbers",
+            "Formulas are generated with a known line for every call; each reachable element is made to fail in turn (exceptions, "
+            "BaseException, None results) in histories that contain earlier failures and failures handled by formulas. The "
+            "traceback must equal the reference's unwound chain with exact line numbers, get_error() the original exception.",
+            "line numbers refer to the generated source; after-return failures are listed with line 0 as documented"),
 }
 
 NOT_YET = {
